@@ -473,6 +473,12 @@ func (g *gen) content(name string, special bool) (b []byte, class string, marked
 		return []byte(body + "\n\n\n"), "extra-trailing-newlines", true
 	case 7:
 		return []byte("\n\n" + body + "\n"), "leading-blank-lines", true
+	case 8:
+		// bytes at the very start or end that tools like to "tidy": byte-order marks,
+		// blanks, form feeds, NULs, a final ^Z
+		lead := []string{"\xef\xbb\xbf", "\xff\xfe", "\xfe\xff", " \t", "\x0c", "\x00", "\xef\xbb\xbf\xef\xbb\xbf", "\r\n"}[rng.IntN(8)]
+		trail := []string{"\n", "", " \n", "\x1a", "\n\xef\xbb\xbf", "\t"}[rng.IntN(6)]
+		return []byte(lead + "# " + m + "\n" + body + trail), "edge-bytes", true
 	}
 	return []byte(body + "\n"), "plain", true
 }
